@@ -127,6 +127,8 @@ def run_checks(meta, pid, checks, tier, patch, demo, src, name, result, ran):
                     print(chk, "exit", rcc, viol[0] if viol else "", "|", why)
         finally:
             sh("git -C %s checkout -- . && git -C %s clean -fdq tests" % (REPO, REPO))
+            # Gen.v / Gen2.v / Constants.v are tracked and were regenerated from the changed sources by the checks: bring them back
+            sh("VERIF_REPO=%s python3 -c 'import verif; verif.source_facts()'" % REPO, cwd=ROOT)
         ran.append("git -C /repo checkout -- .")
     dst = os.path.join(os.environ.get("SEED_OUT", os.path.join(ROOT, "seeded")), name)
     os.makedirs(dst, exist_ok=True)
